@@ -513,6 +513,15 @@ fn register_req(w: &mut World, tag: u32, kind: ReqKind, qos: u8, expected: Packe
 fn settle_req(w: &mut World, ri: usize, res: &Res, handle: Option<minimq::Op>) {
     let tag = w.reqs[ri].tag;
     let offered = w.offered_now.contains(&tag);
+    if w.must_be_dead && !matches!(res, Res::OkOp | Res::Ok | Res::OkNone) {
+        // a request on a dead handle is refused: nothing of it may ever be sent (C19)
+        let r = &mut w.reqs[ri];
+        r.accept = Accept::NotAccepted;
+        r.refused_with = Some(format!("{}-on-dead-handle", res.name()));
+        r.is_probe = true;
+        r.phase = Phase::Done(0xFF);
+        return;
+    }
     let r = &mut w.reqs[ri];
     match res {
         Res::OkOp => {
@@ -1164,6 +1173,14 @@ pub fn do_wait(conn: &mut Conn<'_, '_>, kind: Wait, opts: Option<ExecOpts>) -> R
                     );
                 }
             }
+            Res::BufferTooSmall if !w.conns[cur].owed_acks.is_empty() && !w.raw_mode => {
+                let (t, _, _) = w.conns[cur].owed_acks[0];
+                w.violate(
+                    "C04",
+                    format!("owed-ack-not-sent/buffer-too-small/{}", codec::type_name_of(t)),
+                    format!("{opname} failed with BufferTooSmall while an acknowledgement for an inbound packet is owed: acknowledgements must not depend on free transmit-arena space"),
+                );
+            }
             Res::InflightExhausted => {
                 w.violate(
                     "C06",
@@ -1192,8 +1209,29 @@ pub fn do_wait(conn: &mut Conn<'_, '_>, kind: Wait, opts: Option<ExecOpts>) -> R
                 w.conns[cur].expect_deliver.clear();
             }
         }
-        if res != Res::Cancelled {
-            // waiting was interrupted by a result; the app will come back
+        if res == Res::Cancelled && w.last_cancel_idle && w.conns[cur].established && w.conns[cur].session_present && !w.ids_ambiguous && kind != Wait::Drive {
+            // The client sits idle on a resumed connection: everything that was unacknowledged
+            // when the session was resumed must have been retransmitted by now.
+            let pending: Vec<u32> = w.conns[cur].must_replay.iter().copied().collect();
+            for tag in pending {
+                let r = &w.reqs[w.req_by_tag[&tag]];
+                if r.invalidated || r.ambiguous || matches!(r.phase, Phase::Done(_)) || r.accept != Accept::Accepted {
+                    continue;
+                }
+                let (prop, kind_s) = match (r.kind, r.qos, r.phase) {
+                    (ReqKind::Pub, 1, _) => ("C02", "pub1"),
+                    (ReqKind::Pub, _, Phase::Release) => ("C03", "pubrel"),
+                    (ReqKind::Pub, _, _) => ("C03", "pub2"),
+                    (ReqKind::Sub, _, _) => ("C05", "sub"),
+                    _ => ("C05", "unsub"),
+                };
+                w.violate(
+                    prop,
+                    format!("not-retransmitted-on-resumed-connection/{kind_s}"),
+                    format!("request tag {tag} was unacknowledged when connection {cur} resumed the session, the client now waits idle and has not retransmitted it"),
+                );
+                break;
+            }
         }
     });
     after_op(conn);
@@ -1280,6 +1318,7 @@ pub fn dead_handle_probe(conn: &mut Conn<'_, '_>) {
             }
         });
         let which = with(|w| w.tape.choose(8));
+        let quiescent_before = conn.session().is_publish_quiescent();
         let (name, res): (&'static str, Res) = match which {
             0 => ("poll", do_wait(conn, Wait::Poll, None)),
             1 => ("recv", do_wait(conn, Wait::Recv, None)),
@@ -1301,7 +1340,15 @@ pub fn dead_handle_probe(conn: &mut Conn<'_, '_>) {
                 }
             }
         };
+        let quiescent_after = conn.session().is_publish_quiescent();
         with(|w| {
+            if quiescent_after != quiescent_before {
+                w.violate(
+                    "C19",
+                    format!("request-on-dead-handle-changed-state/op={name}"),
+                    format!("{name} on a dead handle changed is_publish_quiescent() from {quiescent_before} to {quiescent_after}"),
+                );
+            }
             let want = if name == "disconnect" { Res::Ok } else { Res::Disconnected };
             if res != want {
                 w.violate(
